@@ -265,11 +265,24 @@ fn conformance(rep: &mut Report, root: &std::path::Path) {
         }
         cb.push_raw(txs);
     }
+    {
+        // a transaction that repeats one script many times between different ones (payout / dust shape), and one whose outputs
+        // are all identical: any memo / cache shared between the workers of one transaction is exercised under real contention
+        let h = cb.next_height();
+        let rep: Vec<refmodel::ser::TxOut> = (0..1500usize).map(|k| if k % 2 == 0 { pay(77, 1 + k as u64) } else { pay((k % 200) as u8, 1 + k as u64) }).collect();
+        let same: Vec<refmodel::ser::TxOut> = (0..300usize).map(|k| pay(78, 5 + k as u64)).collect();
+        cb.push_raw(vec![
+            coinbase(h, 1, vec![pay(1, 50 * COIN_VALUE)]),
+            Tx { version: 1, segwit: false, inputs: vec![TxIn::spend([0xee; 32], 9000)], outputs: rep, locktime: 0 },
+            Tx { version: 1, segwit: false, inputs: vec![TxIn::spend([0xee; 32], 9001)], outputs: same, locktime: 0 },
+        ]);
+    }
     let world = World::simple(btc, &cb.blocks, 0);
     let all = cb.mblocks();
+    let tip = all.len() as u64 - 1;
     let mut cases = Vec::new();
     for threads in [1u32, 2, 3, 8, 16, 64] {
-        for rep_i in 0..if thorough { 6 } else { 2 } {
+        for rep_i in 0..if thorough { 8 } else { 3 } {
             for cbn in ["csvdump", "simplestats", "opreturn", "unspentcsvdump", "balances"] {
                 cases.push((threads, rep_i, cbn));
             }
@@ -288,9 +301,9 @@ fn conformance(rep: &mut Report, root: &std::path::Path) {
             let r = wk.run(&spec);
             reference.insert(cbn, crate::hx::observe(&r, &wk.dir));
             let bad = match cbn {
-                "csvdump" => check_csvdump(&r, btc, &all, 0, 3),
-                "unspentcsvdump" => check_unspent(&r, btc, &all, 0, 3),
-                "balances" => check_balances(&r, btc, &all, 0, 3),
+                "csvdump" => check_csvdump(&r, btc, &all, 0, tip),
+                "unspentcsvdump" => check_unspent(&r, btc, &all, 0, tip),
+                "balances" => check_balances(&r, btc, &all, 0, tip),
                 "simplestats" => check_stats(&r, btc, &all),
                 _ => check_opreturn(&r, btc, &all),
             };
@@ -321,5 +334,5 @@ fn conformance(rep: &mut Report, root: &std::path::Path) {
     for p in parts {
         rep.merge(p);
     }
-    rep.sampled_supplement.push(json!({"what": "free-running real-rayon conformance pass (SAMPLING, not part of the exhaustive claim)", "runs": n, "threads": [1, 2, 3, 8, 16, 64], "blocks": "300 txs x 3 outputs, 40 txs x 60 outputs, 2x2", "oracle": "every run equals the single-thread run of the same world and callback"}));
+    rep.sampled_supplement.push(json!({"what": "free-running real-rayon conformance pass (SAMPLING, not part of the exhaustive claim)", "runs": n, "threads": [1, 2, 3, 8, 16, 64], "blocks": "300 txs x 3 outputs, 40 txs x 60 outputs, 2x2, a 1500-output tx repeating one script between different ones, a 300-output tx of identical scripts", "oracle": "every run equals the single-thread run of the same world and callback"}));
 }
